@@ -1095,6 +1095,13 @@ class Sem:
                 op = {"eq": "Eq", "ne": "Ne", "lt": "Lt", "le": "Le", "gt": "Gt", "ge": "Ge"}[nm]
                 return [(st, simp_binop(op, self.val(A[0], st), self.val(A[1], st)))]
             return None
+        if nm == "extend" and "iter::Extend" in p and len(A) == 2 and A[0][0] == "ptr":
+            # Vec::extend / String::extend: the collection afterwards is the old one followed by the new elements
+            old = self.read_at(st, A[0][1], A[0][2])
+            nv = mk("ext", self.resolve(old, st), self.resolve(A[1], st))
+            st.mem[A[0][1]] = self.update(self.cell(st, A[0][1]), list(A[0][2]), nv, st)
+            st.trace = st.trace + ((mk("call", p, (self.resolve(old, st), self.resolve(A[1], st)), f.get("resolved"), tuple(f.get("args", ()))), len(st.order), site),)
+            return [(st, UNIT)]
         if nm == "discriminant_value" and "intrinsics" in p and len(A) == 1:
             x = self.val(A[0], st)
             if x[0] == "agg":
